@@ -59,9 +59,11 @@ class _SocketHub:
         self, socket: thread_socket.ThreadSocket, timeout: Optional[float] = None
     ) -> None:
         """Connects a socket to another"""
+        # Register the callbacks before the socket becomes visible as open: from that moment
+        # the remote side may send, and those messages must reach the callback.
+        self._add_callbacks(socket)
         self._open_sockets.add(socket.key)
         self._remote_sockets.add(socket.key)
-        self._add_callbacks(socket)
 
         self._wait_for_remote(socket, timeout=timeout)
 
